@@ -346,30 +346,6 @@ struct Deferred {
   }
 };
 
-// Calls 0..k-1, any of which may kill the process.  invoke(i, check) performs
-// call i and, if check, verifies its result.  One fork when all survive;
-// otherwise each call is probed on its own, died(i, how) is told, and the
-// surviving calls are still checked.
-template <class Invoke, class Died>
-static void guarded_calls(size_t k, Invoke invoke, Died died) {
-  std::string d = dies_in_child([&]() {
-    for (size_t i = 0; i < k; ++i)
-      invoke(i, false);
-  });
-  if (d.empty()) {
-    for (size_t i = 0; i < k; ++i)
-      invoke(i, true);
-    return;
-  }
-  for (size_t i = 0; i < k; ++i) {
-    std::string di = dies_in_child([&]() { invoke(i, false); });
-    if (!di.empty())
-      died(i, di);
-    else
-      invoke(i, true);
-  }
-}
-
 // ===========================================================================
 // LC_CSR_Graph
 // ===========================================================================
@@ -635,7 +611,7 @@ static void csr_fesbd_run(const Ctx& c) {
   auto pairs   = query_pairs(r);
   uint64_t h   = 0;
   Deferred df;
-  guarded_calls(
+  guarded_calls_inline(
       pairs.size(),
       [&](size_t i, bool check) {
         auto& q = pairs[i];
@@ -698,7 +674,7 @@ static void csr_units_run(const Ctx& c) {
   };
   uint64_t h = 0;
   Deferred df;
-  guarded_calls(
+  guarded_calls_inline(
       calls.size(),
       [&](size_t i, bool check) {
         const Call& k = calls[i];
@@ -733,30 +709,46 @@ static void csr_units_run(const Ctx& c) {
   sx::outcome(h);
 }
 
-// --- readGraphFromGRFile (direct file reader of LC_CSR_Graph) --------------
+// --- readGraphFromGRFile (direct file reader of LC_CSR_Graph) and
+// --- LC_CSR_CSC_Graph::readAndConstructBiGraphFromGRFile on top of it --------
+template <class E, class G>
+static Adj csc_dump_in(const std::string& K, G& g, const Ctx& c);
+
 template <class E>
 static void csr_grfile_run(const Ctx& c) {
   Files<E> files(c.r);
   typedef gg::LC_CSR_Graph<int, E> G;
+  typedef gg::LC_CSR_CSC_Graph<int, E, true> GB;
   Adj obs;
   Deferred df;
-  auto key = [](size_t i) {
-    return std::string("LC_CSR_Graph:readGraphFromGRFile") +
-           (i == 1 ? "-v2" : "");
-  };
+  const char* keys[3] = {
+      "LC_CSR_Graph:readGraphFromGRFile", "LC_CSR_Graph:readGraphFromGRFile-v2",
+      "LC_CSR_CSC_Graph:readAndConstructBiGraphFromGRFile"};
   files.fwd(1);
   files.fwd(2);
   guarded_calls(
-      2,
+      3,
       [&](size_t i, bool check) {
-        G g;
-        g.readGraphFromGRFile(files.fwd((int)i + 1));
-        if (check)
-          df.run([&]() { obs = csr_static<E>(key(i), g, c); });
+        if (i < 2) {
+          G g;
+          g.readGraphFromGRFile(files.fwd((int)i + 1));
+          if (check)
+            df.run([&]() { obs = csr_static<E>(keys[i], g, c); });
+        } else {
+          GB g;
+          g.readAndConstructBiGraphFromGRFile(files.fwd(1));
+          if (check)
+            df.run([&]() {
+              csr_static<E>(keys[i], g, c);
+              compare_adj(keys[i], "in-edges", csc_dump_in<E>(keys[i], g, c),
+                          expect_adj<E>(c.r.tcsr), false, c.str());
+            });
+        }
       },
       [&](size_t i, const std::string& how) {
         df.run([&]() {
-          fail(key(i) + ":crash", "%s: %s", c.str().c_str(), how.c_str());
+          fail(std::string(keys[i]) + ":crash", "%s: %s", c.str().c_str(),
+               how.c_str());
         });
       });
   df.rethrow();
@@ -810,19 +802,23 @@ static void csc_checks(const std::string& L, const std::string& builder, G& g,
   compare_adj(K, "in-edges", csc_dump_in<E>(K, g, c), wantIn, false, ctx);
   if (!views)
     return;
-  // sortInEdgesByDst is sequential: try it in a child first
-  std::string d = dies_in_child([&]() {
-    for (uint64_t u = 0; u < c.r.n; ++u)
-      g.sortInEdgesByDst(u);
-  });
-  if (!d.empty()) {
-    df.run([&]() {
-      fail(L + ":sortInEdgesByDst:crash", "%s: %s", ctx.c_str(), d.c_str());
-    });
-    return;
-  }
-  for (uint64_t u = 0; u < c.r.n; ++u)
-    g.sortInEdgesByDst(u);
+  // sortInEdgesByDst is sequential: a fault in it is caught in place
+  bool dead = false;
+  guarded_calls_inline(
+      1,
+      [&](size_t, bool) {
+        for (uint64_t u = 0; u < c.r.n; ++u)
+          g.sortInEdgesByDst(u);
+      },
+      [&](size_t, const std::string& how) {
+        dead = true;
+        df.run([&]() {
+          fail(L + ":sortInEdgesByDst:crash", "%s: %s", ctx.c_str(),
+               how.c_str());
+        });
+      });
+  if (dead)
+    return; // the graph is in an unknown state
   Adj got = csc_dump_in<E>(L + ":sortInEdgesByDst", g, c);
   compare_adj(L + ":sortInEdgesByDst", "in-edges", got, wantIn, false, ctx);
   check_sorted_by_dst(L + ":sortInEdgesByDst", got, ctx);
@@ -838,53 +834,35 @@ static void csc_checks(const std::string& L, const std::string& builder, G& g,
 
 template <class E, class G>
 static void csc_layout(const std::string& L, const Ctx& c, Files<E>& files,
-                       bool full, bool by_name, bool grfile_ok, Deferred& df) {
+                       bool full, bool by_name, Deferred& df) {
   {
     G g;
     load(g, files.fwd(1), by_name);
     g.constructIncomingEdges();
     csc_checks<E>(L, "readGraph+constructIncomingEdges", g, c, full, df);
   }
-  if (!full)
-    return;
-  if (usable(files, 2)) {
+  if (full && usable(files, 2)) {
     G g;
     load(g, files.fwd(2), false);
     g.constructIncomingEdges();
     csc_checks<E>(L, "readGraph-v2+constructIncomingEdges", g, c, false, df);
   }
-  if (grfile_ok) {
-    G g;
-    g.readAndConstructBiGraphFromGRFile(files.fwd(1));
-    csc_checks<E>(L, "readAndConstructBiGraphFromGRFile", g, c, false, df);
-  }
 }
 
+// (readAndConstructBiGraphFromGRFile is exercised by the readGraphFromGRFile
+// case, next to the reader it is built on.)
 template <class E>
 static void csc_run(const Ctx& c) {
   Files<E> files(c.r);
   bool full = full_programme(c);
   Deferred df;
-  // readAndConstructBiGraphFromGRFile = readGraphFromGRFile (which has its own
-  // case and its own findings) + constructIncomingEdges: used only where the
-  // former survives.
-  bool grfile_ok = false;
-  if (full) {
-    const std::string& path = files.fwd(1);
-    grfile_ok               = dies_in_child([&]() {
-                  gg::LC_CSR_Graph<int, E> g0;
-                  g0.readGraphFromGRFile(path);
-                }).empty();
-  }
   csc_layout<E, gg::LC_CSR_CSC_Graph<int, E, false>>(
-      "LC_CSR_CSC_Graph<in-data-by-ref>", c, files, full, true, grfile_ok, df);
+      "LC_CSR_CSC_Graph<in-data-by-ref>", c, files, full, true, df);
   csc_layout<E, gg::LC_CSR_CSC_Graph<int, E, true>>(
-      "LC_CSR_CSC_Graph<in-data-by-value>", c, files, full, false, grfile_ok,
-      df);
+      "LC_CSR_CSC_Graph<in-data-by-value>", c, files, full, false, df);
   if (full)
     csc_layout<E, gg::LC_CSR_CSC_Graph<int, E, false, false, true>>(
-        "LC_CSR_CSC_Graph<in-data-by-ref,numa>", c, files, false, false, false,
-        df);
+        "LC_CSR_CSC_Graph<in-data-by-ref,numa>", c, files, false, false, df);
   df.rethrow();
   finish_run(c, expect_adj<E>(c.r.tcsr));
 }
